@@ -174,13 +174,13 @@ P["C11"] = {
 # ---------------------------------------------------------------- C12
 P["C12"] = {
  "title": "no envelope sequence from a peer can crash or stall a server",
- "bounds": "every sequence of L envelopes over 17 shapes x 2 stream ids (empty-bodied message, unary request and stream open with a malformed grpc-timeout value, header absent, unparsable method, unknown service, unknown method, foreign destination, valid unary, unary with undecodable -bin metadata, stream open, open with bad metadata, body, trailer, RST_STREAM, reset of another type, body for a foreign destination), L = 2 (quick) / 3 (thorough), each followed by a valid probe request and a clean end; all interleavings",
+ "bounds": "every sequence of L envelopes over 17 shapes x 2 stream ids (empty-bodied message, unary request and stream open with a malformed grpc-timeout value, header absent, unparsable method, unknown service, unknown method, foreign destination, valid unary, unary with undecodable -bin metadata, stream open, open with bad metadata, body, trailer, RST_STREAM, reset of another type, body for a foreign destination), L = 2 (quick); thorough adds L = 3 with the first envelope over all 17 shapes and the other two over a 9-shape sub-alphabet (the full 17^3 did not finish within the per-job budget and is outside); each followed by a valid probe request and a clean end; all interleavings",
  "assumptions": GEN_ASSUME,
  "quick": [job("H_C12_seq", conc=True, reach=["checked"], L=2, first=f) for f in range(17)] +
           [job("H_C12_seq", conc=True, reach=["checked"], L=3, first=7, second=9, third=9, oneid=1, lazy=1), job("H_C12_seq", conc=True, reach=["checked"], L=4, first=7, second=9, third=9, oneid=1, lazy=1),
            job("H_C12_seq", conc=True, reach=["checked"], L=2, first=7, lazy=1)] +
           [job("H_C12_method", reach=["parsed", "error"], n=n) for n in (2, 3, 5)] + [job("H_C12_method", reach=["error"], n=0), job("H_C12_method", reach=["error"], n=1), job("H_selftest_lib", reach=["checked"])],
- "thorough": [job("H_C12_seq", conc=True, reach=["checked"], L=3, first=f) for f in range(17)] +
+ "thorough": [job("H_C12_seq", conc=True, reach=["checked"], L=2, first=f) for f in range(17)] + [job("H_C12_seq", conc=True, reach=["checked"], L=3, first=f, alpha=1) for f in range(17)] +
           [job("H_C12_seq", conc=True, reach=["checked"], L=3, first=7, second=9, lazy=1), job("H_C12_seq", conc=True, reach=["checked"], L=4, first=7, second=9, third=9, oneid=1, lazy=1)],
 }
 
